@@ -34,7 +34,7 @@ pub struct Case {
 fn case_strategy(t: Tier) -> BoxedStrategy<Case> {
     let nflips = t.pick(24usize, 64usize);
     (
-        prog::ops_strategy(16, 3, 0),
+        prog::ops_strategy(16, 3, 1),
         prog::ops_strategy(8, 1, 0),
         proptest::collection::vec(any::<u8>(), 0..12),
         any::<u64>(),
@@ -352,6 +352,13 @@ fn sweep(ctx: &Ctx) {
                 return;
             }
         };
+        // the honest proofs of the sweep circuit (every gate family) first
+        for (v, b) in [(PlonkVersion::V3, &s.proof), (PlonkVersion::V2, &s.proof_v2)] {
+            if let Err(f) = compare(ctx, "sweep honest", &s.verifier, &s.rv, b, &s.pi, v, Some(true)) {
+                ctx.violation("differential", &f, json!({"sweep_proof": pidx, "honest": format!("{v:?}")}));
+                return;
+            }
+        }
         let versions: &[PlonkVersion] = if ctx.tier == Tier::Thorough {
             &[PlonkVersion::V3, PlonkVersion::V2, PlonkVersion::V1]
         } else {
